@@ -53,7 +53,7 @@ var diff = ev.Register(&ev.Prop[Case]{
 		if err != nil {
 			t.Fatalf("harness: %v", err)
 		}
-		c.Msg = cat.Message(t, gen.TreeOpts{MaxTop: 12, MaxDepth: rapid.IntRange(1, ev.Pick(4, 10)).Draw(t, "max-depth")})
+		c.Msg = cat.Message(t, gen.TreeOpts{MaxTop: 12, MaxDepth: rapid.IntRange(1, ev.Pick(4, 10)).Draw(t, "max-depth"), Val: gen.ValueOpts{SubSecond: true}})
 		c.TopDown = rapid.Bool().Draw(t, "top-down")
 		c.Literal = rapid.IntRange(0, 3).Draw(t, "literal") == 0
 		return c
@@ -319,11 +319,11 @@ func genHist(t *rapid.T) HCase {
 			if e.Vendor != 0 {
 				fl |= 0x80
 			}
-			op.AVP = &gen.AVP{Code: e.Code, Flags: fl, Vendor: e.Vendor, V: gen.Value(t, e.Type, gen.ValueOpts{MaxBytes: 3000})}
+			op.AVP = &gen.AVP{Code: e.Code, Flags: fl, Vendor: e.Vendor, V: gen.Value(t, e.Type, gen.ValueOpts{MaxBytes: 3000, SubSecond: true})}
 		default:
 			var l []*gen.AVP
 			for len(l) == 0 {
-				l = cat.Tree(t, c.App, gen.TreeOpts{MaxTop: 1, MaxDepth: 3, Val: gen.ValueOpts{MaxBytes: 3000}})
+				l = cat.Tree(t, c.App, gen.TreeOpts{MaxTop: 1, MaxDepth: 3, Val: gen.ValueOpts{MaxBytes: 3000, SubSecond: true}})
 			}
 			op.AVP = l[0]
 			if (kind == "new-u32" || kind == "new-int") && op.AVP.V.T == gen.TGrouped {
